@@ -951,6 +951,19 @@ func main() {
 			executeDeadline(c, deadline[c.Index])
 		})
 
+		// Several calls fail at the same instant with errors of different concrete types (simul.go).
+		nsim := r.Scale(3000, 40000)
+		if small {
+			nsim = r.Scale(1000, 8000)
+		}
+		simul := simulCases(r.Rand("simul"), nsim)
+		r.Cases("simul", len(simul), 1, func(c *vkit.Case) {
+			if r.NViolations() >= 5 {
+				return
+			}
+			executeSimul(c, simul[c.Index])
+		})
+
 		// GOMAXPROCS changed inside the process. "GOMAXPROCS when <= 0" means the value in force when
 		// the call is made. GOMAXPROCS is process-global: this group runs alone, one case at a time,
 		// after everything above has finished, and every case restores the inherited value.
@@ -1078,6 +1091,7 @@ func main() {
 			r.Floor("runs while GOMAXPROCS was being flipped by another goroutine", r.Table("runs", "while GOMAXPROCS was being flipped by another goroutine"), int64(nToggle))
 			r.Floor("GOMAXPROCS flips while the toggle group ran", r.Table("toggle", "GOMAXPROCS flips while the group ran"), int64(nToggle))
 			r.Floor("runs with a caller ctx whose deadline has passed but whose Err() is Canceled", r.Table("runs", "caller ctx has a passed deadline but Err() == Canceled"), int64(len(deadline)*4/6))
+			r.Floor("runs in which several calls failed at the same instant with errors of different types", r.Table("runs", "several calls failed at the same instant with errors of different types"), int64(len(simul)/2))
 			r.Floor("product-scale runs", r.Table("runs", "product scale (parallelism x n >= 2^32)"), int64(len(scale)))
 			r.Floor("runs after GOMAXPROCS was changed in-process", r.Table("runs", "after GOMAXPROCS was changed in-process"), int64(len(procs)))
 		}
